@@ -176,10 +176,15 @@ package server
 //@ func (*Server).DidChange
 //@   props C01
 //@   requires s != nil && params != nil
+//@   requires s.workspace != nil ==> WsOK(s.workspace, uriPath(params.TextDocument.URI))
 //@   ensures [C01:fold] old(smhas(s.documents, params.TextDocument.URI)) && typeis(old(smget(s.documents, params.TextDocument.URI)), string) ==> smhas(s.documents, params.TextDocument.URI) && smget(s.documents, params.TextDocument.URI) == box(docFold(as(old(smget(s.documents, params.TextDocument.URI)), string), params.ContentChanges, len(params.ContentChanges)))
 //@   ensures [C01:absent] !old(smhas(s.documents, params.TextDocument.URI)) ==> !smhas(s.documents, params.TextDocument.URI)
 //@   modifies s.documents
+//@   modifies s.workspace.cachedFormats, s.workspace.cachedCommodities, s.workspace.cachedAccounts, s.workspace.resolved, s.workspace.includeGraph[*], s.workspace.reverseGraph[*]
+//@   modifies s.workspace.index.accountCounts[*], s.workspace.index.payeeCounts[*], s.workspace.index.commodityCounts[*], s.workspace.index.tagCounts[*], s.workspace.index.dateCounts[*], s.workspace.index.payeeTemplates[*], s.workspace.index.fileIndexes[*], s.workspace.index.tagValueCounts[*], s.workspace.index.tagValueCounts[*][*], s.workspace.index.transactionsByKey[*]
+//@   modifies s.workspace.index.accounts, s.workspace.index.payees, s.workspace.index.commodities, s.workspace.index.tags, s.workspace.index.tagValues, s.workspace.index.dates
 //@   loop 1 invariant 0 - 1 <= rangeindex && rangeindex <= len(params.ContentChanges) - 1
+//@   loop 1 modifies nothing
 //@   loop 1 invariant content == docFold(as(old(smget(s.documents, params.TextDocument.URI)), string), params.ContentChanges, rangeindex + 1)
 //@   loop 1 decreases len(params.ContentChanges) - rangeindex
 
